@@ -42,6 +42,8 @@ def h_history(ctx, ops, role, driver="full", light=False):
     else:
         nrf.dynamic_payloads = False
         nrf.payload_length = list(STATIC_LENS) if not lite else 7
+        if not lite:
+            nrf.set_payload_length(ctx.int("oversized_width", 33, 300), 1)  # clamped to the 32 bytes pipe 1 already had
         if mode == 2:
             nrf.ack = True  # enables dynamic payload lengths again (EN_DPL; pipe 0 - every pipe on the lite driver)
     for p in range(6):
